@@ -354,6 +354,170 @@ fn judge_artifact(case: &Value, ctx: &mut Ctx) -> CaseOut {
     }
 }
 
+// ------------------------------------------------------------------ layouts
+
+const LAYOUT_OPS: &[&str] = &[
+    "nonutf8", "empty", "delete", "dir-named-gom", "dangling-symlink", "symlink-loop", "file-for-dir", "nested-package",
+    "stray-files", "case-twin", "bom", "crlf", "no-newline", "main-missing", "main-is-dir", "dup-file",
+];
+
+fn make_layout_case(d: &mut Dec, ctx: &mut Ctx) -> Value {
+    // the operations first: the project may use up the choice bytes
+    let n = 1 + d.below(3);
+    let picks: Vec<(usize, usize)> = (0..n).map(|_| (d.below(LAYOUT_OPS.len()), d.below(64))).collect();
+    let files: Vec<(String, String)> = if d.chance(60) && !corpus::project_cases().is_empty() {
+        corpus::project_cases()[d.below(corpus::project_cases().len())].files.clone()
+    } else {
+        crate::projgen::gen_project(d, ctx).render()
+    };
+    let mut ops = vec![];
+    for (o, f) in picks {
+        let (path, _) = &files[f % files.len()];
+        ops.push(json!({"op": LAYOUT_OPS[o], "path": path}));
+    }
+    json!({"kind": "layout", "files": goml::files_to_json(&files), "ops": ops})
+}
+
+fn apply_layout_op(root: &std::path::Path, op: &str, rel: &str) {
+    use std::fs;
+    let file = root.join(rel);
+    let dir = file.parent().map(|p| p.to_path_buf()).unwrap_or_else(|| root.to_path_buf());
+    match op {
+        "nonutf8" => {
+            let mut b = fs::read(&file).unwrap_or_default();
+            let at = b.len() / 2;
+            b.splice(at..at, [0xffu8, 0xfe, 0x80]);
+            let _ = fs::write(&file, b);
+        }
+        "empty" => {
+            let _ = fs::write(&file, "");
+        }
+        "delete" => {
+            let _ = fs::remove_file(&file);
+        }
+        "dir-named-gom" => {
+            let _ = fs::create_dir_all(dir.join("zz.gom"));
+        }
+        "dangling-symlink" => {
+            let _ = std::os::unix::fs::symlink("/nonexistent-verif-target", dir.join("dangling.gom"));
+        }
+        "symlink-loop" => {
+            let _ = std::os::unix::fs::symlink(".", dir.join("Loop"));
+        }
+        "file-for-dir" => {
+            if dir != root {
+                let _ = fs::remove_dir_all(&dir);
+                let _ = fs::write(&dir, "package Main\n");
+            }
+        }
+        "nested-package" => {
+            let _ = fs::create_dir_all(dir.join("Inner"));
+            let _ = fs::write(dir.join("Inner").join("lib.gom"), "package Inner\n\nfn f() -> int32 { 1 }\n");
+        }
+        "stray-files" => {
+            let _ = fs::write(dir.join("notes.txt"), "not goml");
+            let _ = fs::write(dir.join(".hidden.gom"), "fn (");
+            let _ = fs::write(dir.join("x.GOM"), "package Other\n");
+        }
+        "case-twin" => {
+            if let Some(name) = dir.file_name().and_then(|n| n.to_str()) {
+                if dir != root {
+                    let twin = root.join(name.to_lowercase());
+                    let _ = fs::create_dir_all(&twin);
+                    let _ = fs::write(twin.join("lib.gom"), format!("package {name}\n\nfn twin() -> int32 {{ 2 }}\n"));
+                }
+            }
+        }
+        "bom" => {
+            let t = fs::read_to_string(&file).unwrap_or_default();
+            let _ = fs::write(&file, format!("{}{t}", '\u{feff}'));
+        }
+        "crlf" => {
+            let t = fs::read_to_string(&file).unwrap_or_default();
+            let _ = fs::write(&file, t.replace('\n', "\r\n"));
+        }
+        "no-newline" => {
+            let t = fs::read_to_string(&file).unwrap_or_default();
+            let _ = fs::write(&file, t.trim_end());
+        }
+        "main-missing" => {
+            let _ = fs::remove_file(root.join("main.gom"));
+        }
+        "main-is-dir" => {
+            let _ = fs::remove_file(root.join("main.gom"));
+            let _ = fs::create_dir_all(root.join("main.gom"));
+        }
+        _ => {
+            // the same file under a second name in the same package directory
+            let _ = fs::copy(&file, dir.join("copy_of.gom"));
+        }
+    }
+}
+
+fn judge_layout(input: &Value, ctx: &mut Ctx) -> CaseOut {
+    let files = goml::files_from_json(&input["files"]);
+    let key = fnv_str(&input.to_string());
+    let root = ctx.scratch.fresh_dir();
+    sandbox::materialise(&root, &files);
+    let mut labels = vec![];
+    for op in input["ops"].as_array().cloned().unwrap_or_default() {
+        let name = op["op"].as_str().unwrap_or("");
+        apply_layout_op(&root, name, op["path"].as_str().unwrap_or("main.gom"));
+        labels.push(format!("layout:{name}"));
+    }
+    let main = root.join("main.gom");
+    let src = std::fs::read_to_string(&main).unwrap_or_default();
+    let out = (|| -> Result<(), (String, String)> {
+        let res = goml::compile_at(main.clone(), &src);
+        labels.push(format!("whole:{}", res.stage()));
+        judge_compile(&res, None)?;
+        // the separate pipeline over whatever goml itself discovers
+        let art = root.join("artifacts-out");
+        let _ = std::fs::create_dir_all(&art);
+        let d = match sep::discover(&root) {
+            Ok(d) => d,
+            Err(e) if e.is_panic() => return Err(crate::projgen::sep_sig("C04", "", &e)),
+            Err(_) => {
+                labels.push("separate:discover-err".into());
+                return Ok(());
+            }
+        };
+        for pkg in &d.order {
+            let Some((_, pdir)) = d.dirs.iter().find(|(p, _)| p == pkg) else { continue };
+            match sep::check_one(pkg, pdir, &art) {
+                Err(e) if e.is_panic() => return Err(crate::projgen::sep_sig("C04", "", &e)),
+                _ => {}
+            }
+            match sep::build_one(pkg, pdir, &art) {
+                Ok(u) => {
+                    let _ = sep::write_unit(&art, &u);
+                }
+                Err(e) if e.is_panic() => return Err(crate::projgen::sep_sig("C04", "", &e)),
+                Err(_) => {
+                    labels.push("separate:build-err".into());
+                    return Ok(());
+                }
+            }
+        }
+        match sep::link_dir(&art, &d.order) {
+            Err(e) if e.is_panic() => Err(crate::projgen::sep_sig("C04", "", &e)),
+            Err(_) => {
+                labels.push("separate:link-err".into());
+                Ok(())
+            }
+            Ok(_) => {
+                labels.push("separate:linked".into());
+                Ok(())
+            }
+        }
+    })();
+    ctx.scratch.remove(&root);
+    match out {
+        Ok(()) => CaseOut::pass(true, key).labelled(labels),
+        Err((sig, detail)) => CaseOut::fail(sig, format!("{detail}\nops: {}", input["ops"]), key).labelled(labels),
+    }
+}
+
 impl Check for C04 {
     fn id(&self) -> &'static str {
         "C04"
@@ -367,6 +531,8 @@ impl Check for C04 {
             // unclosed nestings of every depth followed by another item (quick: every 5th case)
             PhaseSpec { name: "unwind", cases: crate::textgen::unwind_count() / tier.pick(5, 1), max_bytes: 0, exhaustive: true },
             PhaseSpec { name: "artifacts", cases: tier.pick(4_000, 80_000), max_bytes: 48, exhaustive: false },
+            // package directories as a file system can present them (odd entries, unreadable text)
+            PhaseSpec { name: "layouts", cases: tier.pick(4_000, 60_000), max_bytes: 1500, exhaustive: false },
             PhaseSpec { name: "prog", cases: tier.pick(40_000, 600_000), max_bytes: 500, exhaustive: false },
             PhaseSpec { name: "illprog", cases: tier.pick(20_000, 300_000), max_bytes: 420, exhaustive: false },
         ]
@@ -395,7 +561,7 @@ impl Check for C04 {
                     let p = crate::gen::build::gen_program(&mut d, cfg, &mut open);
                     Case::new(json!({"text": crate::gen::render::render(&p), "prog": true}))
                 } else {
-                    let split = bytes.len().saturating_sub(6);
+                    let split = bytes.len().saturating_sub(24);
                     let (pb, mb) = bytes.split_at(split);
                     let mut pd = Dec::new(pb);
                     let p = crate::gen::build::gen_program(&mut pd, cfg, &mut open);
@@ -403,12 +569,16 @@ impl Check for C04 {
                     Case::new(json!({"text": text, "prog": true}))
                 }
             }
+            "layouts" => Case::new(make_layout_case(&mut d, ctx)),
             _ => Case::new(make_artifact_case(&mut d, ctx)),
         }
     }
     fn judge(&self, phase: &str, case: &Case, ctx: &mut Ctx) -> CaseOut {
         if case.input["kind"].as_str() == Some("artifact") || phase == "artifacts" {
             return judge_artifact(&case.input, ctx);
+        }
+        if case.input["kind"].as_str() == Some("layout") {
+            return judge_layout(&case.input, ctx);
         }
         let text = case.input["text"].as_str().unwrap_or("");
         let key = fnv_str(text);
@@ -428,7 +598,7 @@ impl Check for C04 {
         }
     }
     fn rule(&self) -> String {
-        "unicode/tokens: random Unicode strings and random goml token sequences; mutate: splice/truncate/duplicate/insert mutations of corpus sources (reach the typer and later stages); prog/illprog: type-directed generated programs with ALL generator gates open (also the shapes other checks exclude because of open findings, hostile identifier pools, every bias) and the same programs with one ill-typed statement injected; nesting: one or mixed syntactic forms (expr, type, pattern) nested 1..256 deep; artifacts: single-leaf JSON mutations and raw text mutations of the interface/core files of every corpus project, fed to read_core+link_cores (core) or check_package+build_package of each dependent (interface). Oracle: every entry point returns without panic/abort/stack overflow on an 8 MiB stack; Err carries >=1 error diagnostic; for single texts every diagnostic range lies in the text on char boundaries and the CLI's formatters accept them. Non-trivial = the input got past parsing and lowering (stage ok/typer/compile) or is an artifact case; distinct by hash of the text.".into()
+        "unicode/tokens: random Unicode strings and random goml token sequences; mutate: splice/truncate/duplicate/insert mutations of corpus sources (reach the typer and later stages); prog/illprog: type-directed generated programs with ALL generator gates open (also the shapes other checks exclude because of open findings, hostile identifier pools, every bias) and the same programs with one ill-typed statement injected; nesting: one or mixed syntactic forms (expr, type, pattern) nested 1..256 deep; unwind: 1..300 unclosed nestings x 14 openers x 7 contexts x 13 following items (every 5th in the quick tier); layouts: corpus and generated projects written to disk and then disturbed by 1-3 file-system operations (non-UTF-8 bytes, empty/deleted/duplicated files, a directory named x.gom, dangling symlink, symlink loop, a file where a package directory should be, nested package directory, stray and hidden files, a lower-case twin directory, BOM, CRLF, missing or directory-valued main.gom) and pushed through compile and discover+check+build+link; artifacts: single-leaf JSON mutations and raw text mutations of the interface/core files of every corpus project, fed to read_core+link_cores (core) or check_package+build_package of each dependent (interface). Oracle: every entry point returns without panic/abort/stack overflow on an 8 MiB stack; Err carries >=1 error diagnostic; for single texts every diagnostic range lies in the text on char boundaries and the CLI's formatters accept them. Non-trivial = the input got past parsing and lowering (stage ok/typer/compile) or is an artifact case; distinct by hash of the text.".into()
     }
     fn assumptions(&self) -> Vec<String> {
         vec![
